@@ -136,6 +136,10 @@ def run(tier):
     fs_i = FrameSetup(prog, mtu_ok=True)
     res_i, _oi, _si = run_regions(fs_i)
     icon_invariant(rep, 'R19.h', fs_i, res_i)
+    # every record stays reachable from the list head: a record cut off the list is never released and its interface gets a second one
+    rep.rule('R19.i', 'handling a frame never rewrites the link or the key of the interface record (every record stays on the list it is released from)', floor=50)
+    from .c17 import record_link_rule
+    record_link_rule(rep, 'R19.i', fs_i, res_i)
     rep.analysed.update({'allocation_sites': sites, 'sites_reached_from_parseFrame': sorted(seen_sites)})
     return finish(rep, 'proof',
                   'Typestate (allocated / freed / retained) of every heap object along every abstract path of parseFrame over all 65 536 cells, both MTU modes and all fault combinations; '
